@@ -1,3 +1,4 @@
+\* x3mand2
 SPECIFICATION Spec
 CONSTANTS
   Cand <- Cand3
@@ -10,5 +11,10 @@ CONSTANTS
   Dev_AttachNoEdge = FALSE
   Dev_DscNotForced = TRUE
 INVARIANT TypeOK
+INVARIANT Inv_W0
+INVARIANT Inv_W1
+INVARIANT Inv_W2
+INVARIANT Inv_W3
+INVARIANT Inv_W4
 INVARIANT Inv_Verdict
 CHECK_DEADLOCK FALSE
